@@ -36,9 +36,17 @@ Theorem C07_cmp_int_float f g t a b : cmp (VNum f t) (VNum g t) = 0 /\ cmp (VNum
 Proof. split; [exact (cmp_int_float f g t) | exact (cmp_num f g a b)]. Qed.
 Print Assumptions C07_cmp_int_float.
 
-(* NaN ranks above every finite number (int or float); two NaN objects compare 0 whatever their identity *)
-Theorem C07_nan_above_finite i j f t : cmp (VNaN i) (VNum f t) = 1 /\ cmp (VNum f t) (VNaN i) = -1 /\ cmp (VNaN i) (VNaN j) = 0.
-Proof. destruct (cmp_nan_above_finite i f t). auto using cmp_nan_nan. Qed.
+(* NaN ranks above every number, +inf included (and above -inf); two NaN objects compare 0 whatever their identity;
+   the infinities compare by value: -inf < every finite number < +inf, and only an infinity of the same sign compares 0 with it *)
+Theorem C07_nan_above_finite i j f t b :
+  cmp (VNaN i) (VNum f t) = 1 /\ cmp (VNum f t) (VNaN i) = -1 /\ cmp (VNaN i) (VNaN j) = 0 /\
+  cmp (VNaN i) (VInf b) = 1 /\ cmp (VInf b) (VNaN i) = -1 /\
+  cmp (VInf true) (VNum f t) = -1 /\ cmp (VNum f t) (VInf false) = -1 /\ cmp (VInf true) (VInf false) = -1 /\
+  cmp (VInf false) (VInf false) = 0 /\ cmp (VInf true) (VInf true) = 0.
+Proof.
+  destruct (cmp_nan_above_finite i f t) as [A B]. destruct (cmp_nan_above_inf i b) as [C D]. destruct (cmp_inf_order f t) as [E [F [G [H I]]]].
+  repeat split; auto using cmp_nan_nan.
+Qed.
 Print Assumptions C07_nan_above_finite.
 
 (* sort returns a permutation of xs that is non-decreasing under cmp (between ANY two positions, not only adjacent ones) *)
@@ -85,7 +93,7 @@ Example C07_example :
   rect 5 t /\ distinct_vals [VStr [98%N]; VNum false 4] /\
   dsort_by [KCol [97%N]] t = [([97%N], [VNone; VNum false 4; VNum true 4; VNaN 1; VStr [98%N]]); ([98%N], [VNum false 6; VNum false 0; VNum false 4; VNum false 2; VNum false 8])] /\
   dsort_byval [([97%N], [VStr [98%N]; VNum false 4])] t = [([97%N], [VStr [98%N]; VNum false 4; VNum true 4; VNaN 1; VNone]); ([98%N], [VNum false 8; VNum false 0; VNum false 4; VNum false 2; VNum false 6])] /\
-  cmp (VDict [(VStr [98%N], VNum false 4); (VNum false 2, VList [VNaN 0]); (VNone, VNone)]) (VDict [(VNone, VNone); (VNum true 2, VList [VInf true]); (VStr [98%N], VNum true 4)]) = 0.
+  cmp (VDict [(VStr [98%N], VNum false 4); (VNum false 2, VList [VNaN 0]); (VNone, VNone)]) (VDict [(VNone, VNone); (VNum true 2, VList [VNaN 7]); (VStr [98%N], VNum true 4)]) = 0.
 Proof.
   cbv zeta. split; [repeat constructor|]. split; [|vm_compute; auto].
   split; [repeat constructor|]. intros i j Hi Hj. cbn in Hi, Hj.
